@@ -203,6 +203,10 @@ def r_est(rep, ctx, m, t):
     key = "R-AFF-EST:%s:orders" % fn
     if None in got:
         return
+    imp = rk.imprecise_in_main(t["sx"], t["hk"])
+    if gs != want and imp and len(gs) < len(want):
+        rep.inconc("R-AFF-EST", key, "the error norm is computed by a construct the interpreter cannot follow (%s): estimator form not derivable" % imp[0])
+        return
     if gs == want:
         rep.ok("R-AFF-EST", key, "error-norm forms vanish through orders %s and not one higher" % gs)
     else:
